@@ -85,6 +85,20 @@ CLAIMED["C19"] = ("CFG/value rules on (*Labels).ToBytes and same(), shape rules 
          "Decides: the original bytes are re-emitted only if re-parsing failed or an exact element-wise comparison of names holds, otherwise the current names are encoded; encoder and decoder agree on the length-prefix/terminator framing; the compression-pointer offset is the widened 14-bit big-endian value; decoding starts at offset 0. "
          "Does NOT decide which names RFC 1035/4704 assign to an arbitrary byte string; hence 'other'.", "", "§5 C19")
 
+E6NOTE = "spec/builders.json: required/forbidden items written by hand from RFC 2131 Table 5/§4.3–4.4, RFC 8415 §18–19 and the builders' doc comments; the full effect lists were reviewed once against the code."
+CLAIMED["C07"] = ("map-range audit and sort-dominance rule on the SSA of the DHCPv4 encoders/printers; shape rules on sortedKeys (exclusion of 82/255, post-sort appends, no element moves); guard sets of Marshal's writes; End/pad ordering and pad-count provenance in ToBytes",
+         "Decides determinism and canonical layout structurally: every range over a map only collects keys that are sorted before use; 82 and 255 are kept out of the sorted set and appended afterwards in that order; no instance for Pad/End; exactly one End on every path, before the padding; pad count 300−Len() under Len()<300 with filler 0; instance split (C01-K3). "
+         "Does not decide that an independent decoder recovers the values; hence 'other'.", "", "§5 C07")
+CLAIMED["C13"] = ("recipe/effect extraction (E6) of the exchange steps and builders compared with reviewed rows; provenance rules for ErrNak, Lease and the Release destination; matcher-shape rules",
+         "Decides per-step rules of the lease exchange: matchers handed to SendAndRead, NAK handling, provenance of Lease fields, renew/release recipes and destinations, v6 solicit/rapid-commit/request steps and the REQUEST builder's guards and fresh transaction id. "
+         "Does not decide behaviour over arbitrary server histories; hence 'other'.", E6NOTE, "§5 C13")
+CLAIMED["C15"] = ("recipe extraction of the default-modifier lists and effect extraction of each modifier closure (E6) compared with reviewed rows; order rules on PrependModifiers/newDHCPv4/New; E3 for input purity",
+         "Decides: defaults precede and caller modifiers follow (prevail); the six builders' recipes contain the RFC-required items and none of the forbidden ones and equal the reviewed lists; each modifier's field effects; builders do not write the packet they answer. "
+         "Does not decide interplay with arbitrary user modifiers; hence 'other'.", E6NOTE, "§5 C15")
+CLAIMED["C16"] = ("effect extraction (E6) of the DHCPv6 builders and relay (de)capsulation compared with reviewed rows; index/provenance rules on NewRelayReplFromRelayForw; accepted-type set of NewReplyFromMessage; schema rows of the relay options",
+         "Decides: relay encapsulation fields and hop count rule, decapsulation loops, the relay-reply rebuild (parallel collections, one index from last to first, argument order, echoed options, innermost reply), type/option guards and transaction-id provenance of the advertise/request/reply builders. "
+         "Does not decide value equality after a wire trip beyond the schema rows; hence 'other'.", E6NOTE, "§5 C16")
+
 NA_REASON = {}
 
 def main():
